@@ -2,12 +2,12 @@ package main
 
 import (
 	"fmt"
-	"sync/atomic"
 	"os"
 	"runtime/debug"
 	"sort"
 	"strings"
 	"sync"
+	"sync/atomic"
 	"time"
 
 	"golang.org/x/tools/go/ssa"
@@ -15,22 +15,23 @@ import (
 
 // RunCfg is one exploration: a harness entry point, a scheduler mode and the bound parameters.
 type RunCfg struct {
-	Name      string           `json:"name"`
-	Entry     string           `json:"entry"`
-	DPOR      bool             `json:"dpor"`
-	MaxRev    int              `json:"max_reversals"`
-	Race      bool             `json:"race_detection"`
-	NoMapPerm bool             `json:"no_map_order_permutation,omitempty"`
-	NoSelectFork bool          `json:"first_ready_select_case,omitempty"`
-	Params    map[string]int64 `json:"params,omitempty"`
-	Workers   int              `json:"workers"`
-	StepLimit int              `json:"step_limit"`
-	Unwind    int              `json:"unwind_limit"`
-	Covers    []string         `json:"required_covers,omitempty"`
-	Witness   int              `json:"witness_samples,omitempty"`
-	MaxWallS  int              `json:"max_wall_s,omitempty"`
-	CrossCheck int             `json:"cross_solver_sample,omitempty"`
-	FixedPath []int            `json:"-"`
+	Name         string           `json:"name"`
+	Entry        string           `json:"entry"`
+	DPOR         bool             `json:"dpor"`
+	MaxRev       int              `json:"max_reversals"`
+	Race         bool             `json:"race_detection"`
+	NoMapPerm    bool             `json:"no_map_order_permutation,omitempty"`
+	NoSelectFork bool             `json:"first_ready_select_case,omitempty"`
+	Params       map[string]int64 `json:"params,omitempty"`
+	Workers      int              `json:"workers"`
+	StepLimit    int              `json:"step_limit"`
+	Unwind       int              `json:"unwind_limit"`
+	Covers       []string         `json:"required_covers,omitempty"`
+	Witness      int              `json:"witness_samples,omitempty"`
+	MaxWallS     int              `json:"max_wall_s,omitempty"`
+	CrossCheck   int              `json:"cross_solver_sample,omitempty"`
+	FixedPath    []int            `json:"-"`
+	FixedLabels  []string         `json:"-"`
 }
 
 type Violation struct {
@@ -42,6 +43,7 @@ type Violation struct {
 	Model     map[string]string      `json:"model,omitempty"`
 	Witness   map[string]interface{} `json:"witness,omitempty"`
 	Decisions []int                  `json:"decisions"`
+	DecLabels []string               `json:"decision_labels,omitempty"` // the decision point each entry of Decisions was taken at
 	Trace     []string               `json:"schedule_trace,omitempty"`
 	Where     string                 `json:"where,omitempty"`
 }
@@ -74,6 +76,7 @@ type RunResult struct {
 	Covers    map[string]int
 	Viols     map[string]*violGroup
 	Inconc    map[string]int
+	Diverged  string // replay only
 	FnSteps   map[string]int
 	Samples   []map[string]interface{}
 	classN    map[string]int
@@ -116,8 +119,12 @@ func explore(p *Program, cfg RunCfg) (*RunResult, error) {
 	pool := newPool(cfg.Workers)
 	if cfg.FixedPath != nil {
 		var pre []choice
-		for _, d := range cfg.FixedPath {
-			pre = append(pre, choice{"replay", d, d})
+		for i, d := range cfg.FixedPath {
+			l := ""
+			if i < len(cfg.FixedLabels) {
+				l = cfg.FixedLabels[i]
+			}
+			pre = append(pre, choice{l, d, d})
 		}
 		pool.put(task{prefix: pre})
 	} else {
@@ -164,7 +171,7 @@ func explore(p *Program, cfg RunCfg) (*RunResult, error) {
 			sol := newSolver()
 			sol.keep = cfg.CrossCheck > 0
 			defer sol.close()
-			ex := &Explorer{pool: pool}
+			ex := &Explorer{pool: pool, verify: cfg.FixedPath != nil}
 			fnSteps := map[*ssa.Function]int{}
 			for {
 				t, ok := pool.get()
@@ -186,6 +193,12 @@ func explore(p *Program, cfg RunCfg) (*RunResult, error) {
 					}
 					res.finishPath(it, why, ex)
 					if cfg.FixedPath != nil {
+						res.mu.Lock()
+						res.Diverged = ex.diverged
+						if ex.diverged == "" && ex.pos < len(ex.stack) {
+							res.Diverged = fmt.Sprintf("the path ended after %d of the %d recorded decisions", ex.pos, len(ex.stack))
+						}
+						res.mu.Unlock()
 						break
 					}
 					if !ex.advance() {
@@ -244,6 +257,9 @@ func (r *RunResult) finishPath(it *Interp, why string, ex *Explorer) {
 	}
 	for _, v := range it.viols {
 		v.Run, v.Entry = r.Cfg.Name, r.Cfg.Entry
+		if lb := ex.labels(); len(lb) >= len(v.Decisions) {
+			v.DecLabels = lb[:len(v.Decisions)]
+		}
 		if it.sch.dpor {
 			for _, tr := range it.sch.trace {
 				v.Trace = append(v.Trace, fmt.Sprintf("g%d %s %s %s %s", tr.tid, tr.tname, tr.op.kind, tr.op.obj, tr.op.pos))
